@@ -10,7 +10,7 @@
     unbounded [Z] in the model (strings with 8*len+7 >= 2^31 are outside the
     statement: their bit positions do not fit New's int32 arguments). *)
 From Coq Require Import ZArith List Bool.
-From Low Require Import Lib.MachInt Lib.Bits Lib.BitSeq Lib.Bytes Lib.Lex Lib.Pack_bw Lib.Val Model.Bitstr Model.Bitstr32 Spec.BitstrSpec Spec.BitstrSearchSpec Spec.BitstrDecodeSpec Proofs.BitstrProofs Proofs.BitstrSearchProofs Proofs.Bitstr32Proofs Proofs.BitstrDecodeProofs.
+From Low Require Import Lib.MachInt Lib.Bits Lib.BitSeq Lib.Bytes Lib.Lex Lib.Pack_bw Lib.Val Model.Bitstr Model.Bitstr32 Model.LegacyBitstr32 Spec.BitstrSpec Spec.BitstrSearchSpec Spec.BitstrDecodeSpec Proofs.BitstrProofs Proofs.BitstrSearchProofs Proofs.Bitstr32Proofs Proofs.BitstrDecodeProofs.
 Import ListNotations.
 Open Scope Z_scope.
 
@@ -176,41 +176,63 @@ Proof. exact Cmp_whole. Qed.
 Print Assumptions C09_cmp_whole.
 
 (** * WIDENED: the int32 arithmetic of New / Len made explicit (Model/Bitstr32.v; the
-    protocol operations run this model) *)
+    protocol operations run this model).  Since the /repo fix b2a771a the end byte is
+    computed in int64 and NO side condition is left for New on the literal domain
+    0 <= from <= to <= 8*len(s), to an int32.  Len computes modulo 2^32; the only
+    condition left is that its value (the bit length) fits int32 — always true of New's
+    outputs. *)
 
-(** below the top of the int32 range the wraps are invisible … *)
-Theorem C09_new32_eq : forall s f t, 0 <= f <= t -> t + 7 < 2 ^ 31 -> New32 s f t = New s f t.
+(** on the whole int32 range the wraps of New are invisible … *)
+Theorem C09_new32_eq : forall s f t, 0 <= f <= t -> t < 2 ^ 31 -> New32 s f t = New s f t.
 Proof. exact New32_eq. Qed.
 Print Assumptions C09_new32_eq.
 
-Theorem C09_len32_eq : forall bs, 8 * zlen bs < 2 ^ 31 -> bytes_ok bs -> Len32 bs = Len bs.
+(** … Len's intermediate wraps cancel whenever its value fits int32 … *)
+Theorem C09_len32_eq : forall bs v, Len bs = Some v -> - 2 ^ 31 <= v < 2 ^ 31 -> Len32 bs = Some v.
 Proof. exact Len32_eq. Qed.
 Print Assumptions C09_len32_eq.
 
-(** … so C09_new and C09_len hold of the int32 model on that range *)
-Theorem C09_new32 : forall s f t, bytes_ok s -> 0 <= f <= t -> t <= 8 * zlen s -> t + 7 < 2 ^ 31 ->
+(** … so C09_new and C09_len hold of the int32 model on Go's whole range *)
+Theorem C09_new32 : forall s f t, bytes_ok s -> 0 <= f <= t -> t <= 8 * zlen s -> t < 2 ^ 31 ->
   New32 s f t = Some (encB (B s f t)).
 Proof. exact New32_encB. Qed.
 Print Assumptions C09_new32.
 
-Theorem C09_len32 : forall b, 8 * zlen (encB b) < 2 ^ 31 -> Len32 (encB b) = Some (zlen b).
+Theorem C09_len32 : forall b, zlen b < 2 ^ 31 -> Len32 (encB b) = Some (zlen b).
 Proof. exact Len32_encB. Qed.
 Print Assumptions C09_len32.
 
-(** FINDING (boundary): the hypothesis [toBit + 7 < 2^31] cannot be dropped.  Within 7
-    bits of MaxInt32, [(toBit+7)>>3] overflows int32 and [make] gets a negative length,
-    whatever the string: New panics although from/to are valid int32 values … *)
-Theorem C09_new32_top_panics : forall s f t, 0 <= f <= t -> 2 ^ 31 - 7 <= t < 2 ^ 31 ->
-  New32 s f t = None.
-Proof. exact New32_top. Qed.
-Print Assumptions C09_new32_top_panics.
+Theorem C09_len32_new32 : forall s f t, bytes_ok s -> 0 <= f <= t -> t <= 8 * zlen s -> t < 2 ^ 31 ->
+  match New32 s f t with Some e => Len32 e | None => None end = Some (t - 8 * (f / 8)).
+Proof. exact Len32_New32. Qed.
+Print Assumptions C09_len32_new32.
 
-(** … and such a call lies inside the property's literal domain 0 <= from <= to <= 8*len(s)
-    (a string of 2^28 bytes; replayed on the real code: "makeslice: len out of range"). *)
-Theorem C09_new_full_int32_range_refuted : exists s f t,
-  bytes_ok s /\ 0 <= f <= t /\ t <= 8 * zlen s /\ in_i32 f /\ in_i32 t /\ New32 s f t = None.
-Proof. exact New32_top_witness. Qed.
-Print Assumptions C09_new_full_int32_range_refuted.
+(** in particular within 7 bits of MaxInt32, where the code before b2a771a panicked *)
+Theorem C09_new32_top : forall s f t, bytes_ok s -> 0 <= f <= t -> t <= 8 * zlen s ->
+  2 ^ 31 - 7 <= t < 2 ^ 31 -> New32 s f t = Some (encB (B s f t)).
+Proof. exact New32_top_fixed. Qed.
+Print Assumptions C09_new32_top.
+
+(** LEGACY (Model/LegacyBitstr32.v = New before b2a771a).  Below the top of the range the
+    old arithmetic agreed with the unbounded model … *)
+Theorem C09_new32_legacy_eq : forall s f t, 0 <= f <= t -> t + 7 < 2 ^ 31 ->
+  New32_legacy s f t = New s f t.
+Proof. exact New32_legacy_eq. Qed.
+Print Assumptions C09_new32_legacy_eq.
+
+(** … but FINDING (fixed by b2a771a): within 7 bits of MaxInt32, [(toBit+7)>>3]
+    overflowed int32 and [make] got a negative length, whatever the string … *)
+Theorem C09_new32_legacy_top_refuted : forall s f t, 0 <= f <= t -> 2 ^ 31 - 7 <= t < 2 ^ 31 ->
+  New32_legacy s f t = None.
+Proof. exact New32_legacy_top. Qed.
+Print Assumptions C09_new32_legacy_top_refuted.
+
+(** … and such a call lay inside the property's literal domain 0 <= from <= to <= 8*len(s)
+    (a string of 2^28 bytes; replayed on the pre-fix code: "makeslice: len out of range"). *)
+Theorem C09_new_legacy_full_int32_range_refuted : exists s f t,
+  bytes_ok s /\ 0 <= f <= t /\ t <= 8 * zlen s /\ in_i32 f /\ in_i32 t /\ New32_legacy s f t = None.
+Proof. exact New32_legacy_top_witness. Qed.
+Print Assumptions C09_new_legacy_full_int32_range_refuted.
 
 (** * WIDENED: the encodings as a decidable set of byte strings, and decoding
     ([wf_enc], [decB] of Spec/BitstrDecodeSpec.v) *)
@@ -321,12 +343,16 @@ Qed.
 
 Example C09_new32_nonvacuous :
   New32 [97; 98; 99] 5 12 = Some [0x61; 0x60; 0xf0] /\ Len32 [0x61; 0x60; 0xf0] = Some 12 /\
-  0 <= 5 <= 12 /\ 12 + 7 < 2 ^ 31 /\
-  (* the top of the range: the string is never inspected *)
-  0 <= 2 ^ 31 - 4 <= 2 ^ 31 - 1 /\ New32 [] (2 ^ 31 - 4) (2 ^ 31 - 1) = None /\
+  0 <= 5 <= 12 /\ 12 < 2 ^ 31 /\
+  (* the top of the range: the legacy arithmetic never inspected the string … *)
+  0 <= 2 ^ 31 - 4 <= 2 ^ 31 - 1 /\ New32_legacy [] (2 ^ 31 - 4) (2 ^ 31 - 1) = None /\
   i32 (2 ^ 31 - 1 + 7) = - 2 ^ 31 + 6 /\
-  (* just below it nothing wraps: an empty string is rejected by the slice expression, not by make *)
-  New32 [] (2 ^ 31 - 12) (2 ^ 31 - 9) = None /\ New [] (2 ^ 31 - 12) (2 ^ 31 - 9) = None.
+  (* … the repaired one computes toByte = 2^28 (an empty string is then rejected by the slice
+     expression, as in the unbounded model) *)
+  i32 (sar64 (i64 (2 ^ 31 - 1 + 7)) 3) = 2 ^ 28 /\
+  New32 [] (2 ^ 31 - 4) (2 ^ 31 - 1) = None /\ New [] (2 ^ 31 - 4) (2 ^ 31 - 1) = None /\
+  (* Len of an encoding with 2^28 payload bytes: l<<3 and -16 wrap, the sum does not *)
+  i32 (i32 (sshl32 (i32 (2 ^ 28 + 1)) 3 - 16) + 7) = 2 ^ 31 - 1.
 Proof.
   repeat match goal with |- _ /\ _ => split end; try (vm_compute; reflexivity); vm_compute; congruence.
 Qed.
